@@ -35,6 +35,26 @@ try:
 except Exception as e:  # fail closed: the tie needs the real modules
     raise core.CheckError("cannot import the DBOS runtime sources with the stubs: %r" % (e,))
 
+import llama_agents.dbos.journal.crud as _crud_mod  # noqa: E402
+
+
+class _Sqlite3NoFsync:
+    """crud.py opens a connection per statement and commits; on this disk every commit is an fsync (~15 ms).
+    The module-level name `sqlite3` of crud.py is rebound to this proxy, which only adds PRAGMA synchronous=OFF to
+    new connections (no effect on SQL semantics; durability against power loss is not what is checked here)."""
+
+    def __getattr__(self, name):
+        return getattr(sqlite3, name)
+
+    @staticmethod
+    def connect(*a, **k):
+        c = sqlite3.connect(*a, **k)
+        c.execute("PRAGMA synchronous=OFF")
+        return c
+
+
+_crud_mod.sqlite3 = _Sqlite3NoFsync()
+
 HEADER = """From Coq Require Import List ZArith Bool.
 Import ListNotations.
 From WF Require Import Model.Journal.
@@ -68,7 +88,7 @@ class Dbs:
         p = os.path.join(self.dir, "d%d.db" % self.n)
         shutil.copy(self.template, p)
         if rows or ops:
-            c = sqlite3.connect(p)
+            c = _Sqlite3NoFsync.connect(p)
             c.executemany("INSERT INTO workflow_journal (run_id, seq_num, task_key) VALUES (?,?,?)",
                           [(RUNS[r], s, KEYS[k]) for r, s, k in rows])
             c.executemany("INSERT INTO operation_outputs (workflow_uuid, function_id) VALUES (?,?)",
@@ -78,21 +98,34 @@ class Dbs:
         return p
 
     def drop(self, p):
+        c = _READERS.pop(p, None)
+        if c is not None:
+            c.close()
         try:
             os.unlink(p)
         except OSError:
             pass
 
 
+_READERS = {}
+
+
+def _reader(path):
+    c = _READERS.get(path)
+    if c is None:
+        if len(_READERS) > 8:
+            for k in list(_READERS):
+                _READERS.pop(k).close()
+        c = _READERS[path] = sqlite3.connect(path, isolation_level=None)   # autocommit: sees every committed write
+    return c
+
+
 def dump(path):
-    c = sqlite3.connect(path)
-    try:
-        rows = [(RUNS.index(r), s, KID[k]) for r, s, k in
-                c.execute("SELECT run_id, seq_num, task_key FROM workflow_journal ORDER BY id")]
-        ops = [(RUNS.index(r), f) for r, f in
-               c.execute("SELECT workflow_uuid, function_id FROM operation_outputs ORDER BY rowid")]
-    finally:
-        c.close()
+    c = _reader(path)
+    rows = [(RUNS.index(r), s, KID[k]) for r, s, k in
+            c.execute("SELECT run_id, seq_num, task_key FROM workflow_journal ORDER BY id")]
+    ops = [(RUNS.index(r), f) for r, f in
+           c.execute("SELECT workflow_uuid, function_id FROM operation_outputs ORDER BY rowid")]
     return rows, ops
 
 
@@ -208,7 +241,7 @@ def run_jops(rng, dbs, nops):
                 op(k, 11, r)
             elif k == "rawop":
                 r, f = rng.randrange(2), rng.randrange(0, 9)
-                c = sqlite3.connect(path)
+                c = _Sqlite3NoFsync.connect(path)
                 c.execute("INSERT INTO operation_outputs (workflow_uuid, function_id) VALUES (?,?)", (RUNS[r], f))
                 c.commit()
                 c.close()
@@ -296,6 +329,32 @@ class _Log:
 T_ARM = 1000.0   # virtual seconds of an armed timer; the driver fires it by advancing the clock past it
 
 
+_LOOP = {}
+
+
+def run_on_shared_loop(coro):
+    """Like vloop.run(coro, auto=False) but on one VirtualLoop kept for the whole process (creating a selector loop
+    per run costs a socketpair and several syscalls); leftover tasks are cancelled and drained after every run."""
+    loop = _LOOP.get("loop")
+    if loop is None:
+        loop = _LOOP["loop"] = vloop.VirtualLoop()
+        loop.auto = False
+    vloop.CLOCK.loop = loop
+    asyncio.set_event_loop(loop)
+    try:
+        return loop.run_until_complete(coro)
+    finally:
+        try:
+            pending = [t for t in asyncio.all_tasks(loop) if not t.done()]
+            for t in pending:
+                t.cancel()
+            if pending:
+                loop.run_until_complete(asyncio.gather(*pending, return_exceptions=True))
+        finally:
+            vloop.CLOCK.loop = None
+            asyncio.set_event_loop(None)
+
+
 def named_pending(kid, coro):
     name, num = KEYS[kid].rsplit(":", 1)
     if name == "__pull__":
@@ -303,7 +362,7 @@ def named_pending(kid, coro):
     return PendingWorker(name, int(num), coro)
 
 
-def drive(path, prog, env_rng, max_results, memo_uids=frozenset(), style="free"):
+def drive(path, prog, env_rng, max_results, memo_uids=frozenset(), style="free", actions=None):
     """One process lifetime: a new InternalDBOSAdapter on the database file, driven by a loop that does what
     _ControlLoopRunner.run does around wait_for_next_task, until `max_results` results were handed over and the
     next call is blocked (then the process "crashes").  Every blocked point is a snapshot = a possible crash point.
@@ -317,6 +376,8 @@ def drive(path, prog, env_rng, max_results, memo_uids=frozenset(), style="free")
     rt.logger = log
 
     def choose(cand, tmo):
+        if actions is not None:      # scripted environment (witness replays)
+            return actions.pop(0) if actions else None
         opts = []
         if cand:
             opts += ["one"] * 6 + (["two"] * 2 if len(cand) > 1 else [])
@@ -433,7 +494,11 @@ def drive(path, prog, env_rng, max_results, memo_uids=frozenset(), style="free")
                 running[:] = [nt for nt in running if nt.task is not comp]
 
     try:
-        vloop.run(go(), auto=False)
+        run_on_shared_loop(go())
+    except (KeyboardInterrupt, core.CheckError):
+        raise
+    except BaseException as e:      # the real code raised: a finding about the code, not a machinery error
+        rec["anomalies"].append("exception out of wait_for_next_task: %r" % (e,))
     finally:
         rt.logger = old_logger
     rec["warnings"] = log.warnings
@@ -644,3 +709,43 @@ def gen_base(seed, dbs, flavour):
         one(list(rows), list(ops), len(J) + rng.choice([0, 1, 2]), frozenset(done), "dbos", J, list(hist), wf2, ok2,
             "again%d" % k)
     return dict(expr=loop_case(prog, runs), fails=fails, stats=stats, prog=prog, runs=runs, seed=seed, flavour=flavour)
+
+
+# ------------------------------------------------------------------ the refutation witness on the real code
+class WitnessProg:
+    """Proofs/JournalProofs.v w_prog with real key names: b:0 runs, the wait has a timer; after the timeout the
+    loop starts a:0 (what a delayed retry / waiter timeout does)."""
+    A, B = KID["a:0"], KID["b:0"]
+
+    def __call__(self, h):
+        if h == ():
+            return ((self.B,), True, 0)
+        if h == (-1,):
+            return ((self.A,), False, 0)
+        return ((), False, 0)
+
+
+def witness_timeout(dbs):
+    """Returns (diverges, detail).  First process: timer fires, a:0 completes, b:0 completes -> journal [a:0, b:0].
+    Recovered process: both recorded outputs are there at once."""
+    prog = WitnessProg()
+    p1 = dbs.fresh()
+    r1 = drive(p1, prog, None, 3, actions=["tmo", [1], [0]])
+    rows, ops = dump(p1)
+    J, _ = journal_keys(rows)
+    p2 = dbs.fresh(rows, ops)
+    r2 = drive(p2, prog, None, 1, memo_uids=frozenset([0, 1]), actions=[])
+    rows2, _ = dump(p2)
+    K2, _ = journal_keys(rows2)
+    dbs.drop(p1)
+    dbs.drop(p2)
+    detail = dict(first_run_results=[KEYS[k] if k >= 0 else "timeout" for k in r1["hist"][:3]],
+                  recorded_journal=[KEYS[k] for k in J],
+                  recovered_results=[KEYS[k] if k >= 0 else "timeout" for k in r2["hist"][:2]],
+                  journal_after_recovery=[KEYS[k] for k in K2], fallback_warnings=r2["warnings"],
+                  anomalies=r1["anomalies"] + r2["anomalies"])
+    expected_first = (r1["hist"][:3] == [-1, prog.A, prog.B] and J == [prog.A, prog.B])
+    k2 = [k for k in r2["hist"] if k >= 0]
+    diverges = expected_first and k2[:len(J)] != J[:len(k2)]
+    model_predicts = (r2["hist"][:1] == [prog.B] and K2[:3] == [prog.A, prog.B, prog.B] and r2["warnings"] >= 1)
+    return expected_first, diverges, model_predicts, detail
